@@ -138,7 +138,13 @@ func GenC16(seed uint64) *Plan {
 			}
 		}
 		if g.chance(30) && len(d.Table.Columns) > 0 {
-			d.Notification = &model.Notification{Columns: []string{d.Table.Columns[g.R.IntN(len(d.Table.Columns))].Name}}
+			var ncols []string
+			for _, pi := range g.R.Perm(len(d.Table.Columns)) {
+				if len(ncols) < g.between(1, 3) {
+					ncols = append(ncols, d.Table.Columns[pi].Name)
+				}
+			}
+			d.Notification = &model.Notification{Columns: ncols}
 		}
 		g.R.Shuffle(len(d.Table.Columns), func(a, b int) {
 			d.Table.Columns[a], d.Table.Columns[b] = d.Table.Columns[b], d.Table.Columns[a]
